@@ -1,6 +1,6 @@
 (* Lemmas for C06, part 4: RDF Patch (add patch, diff patch + apply) and the
    theorem tying model and specification checker. *)
-From RV Require Import Routing.Model Routing.Proofs Routing.Relabel Routing.Trix.
+From RV Require Import Routing.Model Routing.Proofs Routing.Relabel Routing.Trix Routing.Trig.
 
 Lemma qsel_pat_of t g x : qsel (pat_of t) (Some g) x = true <-> x = (t, g).
 Proof.
@@ -88,24 +88,16 @@ Proof.
   intros H. apply q_mem_In in H. congruence.
 Qed.
 
-(* apply (diff S T) S = T, whenever the diff is actually computed *)
-Lemma patch_diff_apply S T : wfd S -> wfd T -> isnil (d_quads T) = false ->
+(* apply (diff S T) S = T, for every pair of datasets *)
+Lemma patch_diff_apply S T :
   qseteq (apply_patch (ser_patch_diff S T) (d_quads S)) (d_quads T).
 Proof.
-  intros _ _ Hn q. unfold ser_patch_diff. rewrite Hn. unfold apply_patch. rewrite fold_left_app.
+  intros q. unfold ser_patch_diff. unfold apply_patch. rewrite fold_left_app.
   fold (apply_patch (patch_rows true (ds_sub T S)) (d_quads S)).
   fold (apply_patch (patch_rows false (ds_sub S T)) (apply_patch (patch_rows true (ds_sub T S)) (d_quads S))).
   rewrite apply_del_rows; [|apply patch_rows_op]. rewrite apply_add_rows; [|apply patch_rows_op].
   rewrite !rows_quads; [|apply ds_sub_cover|apply ds_sub_cover]. rewrite !ds_sub_In.
   destruct (In_dec_quad q (d_quads S)), (In_dec_quad q (d_quads T)); tauto.
-Qed.
-
-Lemma patch_diff_apply_both_empty S T : isnil (d_quads T) = true -> isnil (d_quads S) = true ->
-  qseteq (apply_patch (ser_patch_diff S T) (d_quads S)) (d_quads T).
-Proof.
-  intros HT HS q. unfold ser_patch_diff. rewrite HT. apply isnil_true in HT. apply isnil_true in HS.
-  rewrite apply_add_rows; [|apply patch_rows_op]. rewrite rows_quads; [|intros q' Hq'; rewrite HS in Hq'; destruct Hq'].
-  rewrite HS, HT. tauto.
 Qed.
 
 (* ------------------------------------------------------------------ *)
@@ -126,9 +118,7 @@ Proof.
   destruct f; simpl.
   - apply isob_complete. now apply nquads_roundtrip.
   - apply isob_complete. apply iso_of_seteq_back. now apply hext_roundtrip.
-  - apply isob_complete. apply trig_roundtrip; [auto|].
-    destruct (existsb (fun q => inlined S (snd (fst q))) (d_quads S)) eqn:E; [discriminate|].
-    intros q Hq. exact (existsb_false _ _ _ E q Hq).
+  - apply isob_complete. now apply trig_roundtrip.
   - apply isob_complete. apply trix_roundtrip; [auto|].
     destruct (existsb (fun q => isb (snd q) && memb N.eqb (snd q) (term_ids (d_quads S))) (d_quads S)) eqn:E; [discriminate|].
     intros q Hq Hb Hin. assert (isb (snd q) && memb N.eqb (snd q) (term_ids (d_quads S)) = false) as H
@@ -139,9 +129,7 @@ Proof.
     destruct (existsb (fun q => isb (snd q)) (d_quads S)) eqn:E; [discriminate|].
     intros q Hq. exact (existsb_false _ _ _ E q Hq).
   - apply isob_complete. apply iso_of_seteq_back. now apply patch_add_roundtrip.
-  - apply qseteqb_spec. destruct (isnil (d_quads T)) eqn:ET.
-    + destruct (isnil (d_quads S)) eqn:ES; [|discriminate]. now apply patch_diff_apply_both_empty.
-    + now apply patch_diff_apply.
+  - apply qseteqb_spec. apply patch_diff_apply.
 Qed.
 
 Lemma wfdb_spec D : wfdb D = true <-> wfd D.
